@@ -33,10 +33,11 @@ Proof.
   - apply traced_reg_check, H.
 Qed.
 
-Lemma traced_registration s0 v r : traced s0 r -> traced s0 (fst (registration v r)).
+Lemma traced_registration s0 v nc r : traced s0 r -> traced s0 (fst (registration v nc r)).
 Proof.
   intros H. unfold registration. destruct (c_reg (r_claim r)); [exact H|].
   destruct (c_node (r_claim r) && c_ok (r_claim r)); [|exact H].
+  destruct nc; [exact H|].
   destruct (update_health (r_sys r) true (r_parm r)) as [[o did] armed']. cbn [fst].
   apply traced_snoc, H.
 Qed.
@@ -47,8 +48,8 @@ Proof.
   unfold reconcile_claim. destruct (c_gone c); [reflexivity|].
   set (r0 := mkR s c (is_pool_conflict f) (is_delete_err f) []).
   assert (H0 : traced s r0) by reflexivity.
-  pose proof (traced_registration s v r0 H0) as H1.
-  destruct (registration v r0) as [r1 m]; cbn [fst] in H1.
+  pose proof (traced_registration s v (is_node_patch f) r0 H0) as H1.
+  destruct (registration v (is_node_patch f) r0) as [r1 m]; cbn [fst] in H1.
   exact (traced_liveness s v now m r1 H1).
 Qed.
 
@@ -188,7 +189,9 @@ Proof.
     cbn [liveness fst snd r_claim set_reg c_rec]. exact H.
   - intros _. cbn [c_node c_ok r_parm r_sys].
     destruct (node && ok).
-    + destruct (update_health s true (is_pool_conflict f)) as [[o did] armed'] eqn:Eu.
+    + destruct (is_node_patch f).
+      { cbn [fst snd set_reg c_reg]. destruct (is_status_lost f); intros H; discriminate H. }
+      destruct (update_health s true (is_pool_conflict f)) as [[o did] armed'] eqn:Eu.
       cbn [fixed v_pool_first fst snd].
       destruct did.
       * cbn [liveness r_claim set_reg add_rec c_rec c_reg]. intros _. apply in_or_app. right. left. reflexivity.
